@@ -2,7 +2,7 @@
 import ast
 
 from ..model import AnalysisError, dotted, unparse
-from ..util import resolved_text, FACTS, FACTS_I, U, enum_paths, walk_no_nested, is_yield_call
+from ..util import counter_run, counter_entails, resolved_text, FACTS, FACTS_I, U, enum_paths, walk_no_nested, is_yield_call
 from ..paths import call_attr, call_name
 
 SP = 'scales/pool/singleton.py'
@@ -167,39 +167,39 @@ def r2(ctx):
       if isinstance(x, ast.With) and any(U(i.context_expr) == 'self._open_lock' for i in x.items):
         ys = [U(cc) for cc in ast.walk(x) if isinstance(cc, ast.Call) and is_yield_call(cc)]
         ctx.ob('C16.R2', f, 'nothing yields under the open lock', not ys, 'yield calls under the lock: %s' % ys, 'a lock held across a switch serialises/deadlocks holders')
+  CNT = 'self._ref_count'
   for ev, ex in enum_paths(ctx, o):
-    inc = [i for i, e in enumerate(ev) if e.kind == 'stmt' and isinstance(e.node, ast.AugAssign) and U(e.node.target) == 'self._ref_count']
-    ok_inc = len(inc) == 1 and isinstance(ev[inc[0]].node.op, ast.Add) and U(ev[inc[0]].node.value) == '1'
+    # N = number of holders on entry (symbolic): the count becomes N + 1; the underlying sink is opened exactly when N == 0
+    writes, cf = counter_run(ev, CNT)
+    ok_inc = [v for _, v in writes] == [(1, 1)]
     opens = [i for i, e in enumerate(ev) if e.kind == 'call' and U(e.node.func) == 'self.next_sink.Open']
-    fs = FACTS_I(ev)
-    first = any(cn == 'self._ref_count==1' and t and inc and i > inc[0] for cn, t, i in fs)
-    ok = ok_inc and (len(opens) == 1) == first and (not opens or opens[0] > inc[0])
+    first = counter_entails(cf, '==', 0)
+    not_first = counter_entails(cf, '!=', 0)
+    ok = ok_inc and (len(opens) == 1) == first and (bool(opens) or not_first) and (not opens or opens[0] > writes[0][0])
     if opens:
       st = [e for e in ev if e.kind == 'stmt' and isinstance(e.node, ast.Assign) and U(e.node.targets[0]) == 'self._open_ar' and isinstance(e.node.value, ast.Call) and U(e.node.value.func) == 'self.next_sink.Open']
       ok = ok and len(st) == 1
     r = [e for e in ev if e.kind == 'ret']
     ok = ok and bool(r) and U(r[-1].node.value) == 'self._open_ar'
     ctx.ob('C16.R2', o, 'Open: count += 1, underlying Open exactly when the count became 1, shared open result returned', ok,
-           'increments %s, underlying opens %s, first=%s' % (inc, opens, first), why)
+           'count written %s, underlying opens %s, path knows about the holders on entry: %s' % ([v for _, v in writes], opens, [(r_, k_) for _, r_, k_ in cf]), why)
   n_early = 0
   for ev, ex in enum_paths(ctx, c):
-    dec = [i for i, e in enumerate(ev) if e.kind == 'stmt' and isinstance(e.node, ast.AugAssign) and U(e.node.target) == 'self._ref_count']
+    writes, cf = counter_run(ev, CNT)
     closes = [i for i, e in enumerate(ev) if e.kind == 'call' and U(e.node.func) == 'self.next_sink.Close']
-    fs = FACTS_I(ev)
-    zero_before = any(cn in ('self._ref_count==0', 'self._ref_count<=0') and t and (not dec or i < dec[0]) for cn, t, i in fs)
-    if zero_before:
+    if counter_entails(cf, '<=', 0):
       n_early += 1
-      ctx.ob('C16.R2', c, 'surplus Close is ignored (early return at count 0)', not dec and not closes, 'count-0 path decrements %d times, closes %d' % (len(dec), len(closes)), why)
+      ctx.ob('C16.R2', c, 'surplus Close is ignored (early return at count 0)', not writes and not closes, 'count-0 path writes the count %d times, closes %d' % (len(writes), len(closes)), why)
       continue
-    guarded = any(cn in ('self._ref_count==0', 'self._ref_count<=0') and not t and dec and i < dec[0] for cn, t, i in fs) or \
-      any(cn in ('self._ref_count>0', 'self._ref_count!=0', 'self._ref_count') and t and dec and i < dec[0] for cn, t, i in fs)
-    ok_dec = len(dec) == 1 and isinstance(ev[dec[0]].node.op, ast.Sub) and U(ev[dec[0]].node.value) == '1' and guarded
-    ctx.ob('C16.R2', c, 'Close decrements once, only from a positive count', ok_dec, 'decrement path facts %s' % [(a, b) for a, b, _ in fs], why)
-    last = any(cn == 'self._ref_count==0' and t and dec and i > dec[0] for cn, t, i in fs)
-    ok = (len(closes) == 1) == last and (not closes or closes[0] > dec[0])
+    ok_dec = [v for _, v in writes] == [(1, -1)] and counter_entails(cf, '!=', 0)    # with the invariant N >= 0 (kept by this very rule): N >= 1
+    ctx.ob('C16.R2', c, 'Close decrements once, only from a positive count', ok_dec,
+           'count written %s on a path that knows %s about the holders on entry' % ([v for _, v in writes], [(r_, k_) for _, r_, k_ in cf]), why)
+    last = counter_entails(cf, '==', 1)
+    not_last = counter_entails(cf, '!=', 1)
+    ok = (len(closes) == 1) == last and (bool(closes) or not_last) and (not closes or (writes and closes[0] > writes[0][0]))
     if closes:
       ok = ok and any(e.kind == 'stmt' and isinstance(e.node, ast.Assign) and U(e.node.targets[0]) == 'self._open_ar' and U(e.node.value) == 'None' for e in ev)
-    ctx.ob('C16.R2', c, 'underlying Close exactly when the count dropped to 0', ok, 'closes %s, last=%s' % (closes, last), why)
+    ctx.ob('C16.R2', c, 'underlying Close exactly when the count dropped to 0', ok, 'closes %s, last holder=%s' % (closes, last), why)
   ctx.ob('C16.R2', c, 'Close has a count-0 early-return path', n_early >= 1, 'no path handles a surplus close', why)
   of = prog.func(SK, 'RefCountedSink.on_faulted')
   ctx.ob('C16.R2', of, 'fault signal delegates to the underlying sink', U(of.node.body[-1]).replace(' ', '') == 'returnself.next_sink.on_faulted', 'on_faulted changed',
